@@ -118,11 +118,12 @@ def Stream.ready (base now : Nat) (st : Stream) : Bool :=
 
 /-- the poll/read loop until it blocks again or both streams are closed -/
 def Host.pollRound (now : Nat) (h : Host) : Host :=
-  let (o, eo) := h.out.pump h.conn now
-  let (e, ee) := h.err.pump h.conn now
-  let reps := h.reps ++ (if eo then [Rep.readError] else []) ++ (if ee then [Rep.readError] else [])
-  if o.closed && e.closed then { h with out := o, err := e, reps := reps, ph := .finished, res := .done }
-  else { h with out := o, err := e, reps := reps }
+  let o := h.out.pump h.conn now
+  let e := h.err.pump h.conn now
+  let reps := h.reps ++ (if o.2 then [Rep.readError] else []) ++ (if e.2 then [Rep.readError] else [])
+  if o.1.closed && e.1.closed then
+    { h with out := o.1, err := e.1, reps := reps, ph := .finished, res := .done }
+  else { h with out := o.1, err := e.1, reps := reps }
 
 def connReady (sc : Script) (h : Host) (now : Nat) : Bool :=
   match sc.conn with
